@@ -23,6 +23,11 @@ func init() {
 			ruleNameAgreement(r, "R6", "/iscp", "/wire")
 			ruleQoSPartition(r, "R7")
 			ruleC03R8(r)
+			ruleGoroutinesOutliveRequestCtx(r, "R10", "/iscp", "/wire")
+			le03 := newLockEngine(r.P)
+			ruleLockPairingFor(r, le03, "R9", "the read path never wedges on the stream mutex: every function of iscp.Downstream that takes a lock releases it on every path (an unknown alias reported as an error must not leave the mutex held)", func(fn *ssa.Function) bool {
+				return fnPkgPath(fn) == modPath+"/iscp" && recvTypeName(topFunc(fn)) == "Downstream" && (le03.Info(fn).Events > 0 || len(le03.Info(fn).Reports) > 0)
+			}, 5)
 		},
 	})
 }
